@@ -20,7 +20,14 @@ def main():
     if h is None:
         print("REPLAY " + json.dumps(dict(reproduced=None, error=f"no replay handler for kind {c.get('kind')}")))
         return 2
-    r = h(c)
+    try:
+        r = h(c)
+    except (ValueError, RuntimeError, TypeError, IndexError, KeyError, ZeroDivisionError, AttributeError) as e:
+        # the model saw the real code raise on arguments that are VALID for the property (the counterexample says so: `raised`), and the real
+        # stack raises as well while the scenario is re-executed: that is the violation.  Without `raised` it is an error of the replay.
+        if not c.get("raised"):
+            raise
+        r = dict(reproduced=True, why=[f"the call raises on valid arguments: {type(e).__name__}: {str(e)[:300]}"], model_saw=c.get("raised"))
     print("REPLAY " + json.dumps(r, default=str))
     return 1 if r.get("reproduced") else 0
 
